@@ -82,6 +82,106 @@ func c07FindTrim(n ast.Node) (code int, found int) {
 	return
 }
 
+// c07WriteCount classifies the body of the `for len(b) > 0` loop of OutQueue.Write by the order of three things:
+// the call of q.addChunk (the fragment is enqueued), `n += len(data)` and the statement that returns when err != nil.
+// 0: enqueue / count in any order, both before the return;  1: enqueue, return, count;  -1: anything else
+// (count missing or duplicated, conditional count, count inside a branch, return before the enqueue, ...).
+func c07WriteCount(fd *ast.FuncDecl) int {
+	var loop *ast.ForStmt
+	ast.Inspect(fd.Body, func(x ast.Node) bool {
+		if fs, ok := x.(*ast.ForStmt); ok && loop == nil && fs.Init == nil && fs.Post == nil && c07Sel(fs.Cond) == "len(b)>0" {
+			loop = fs
+			return false
+		}
+		return true
+	})
+	if loop == nil {
+		return -1
+	}
+	callsAdd := func(n ast.Node) bool {
+		found := false
+		if n == nil {
+			return false
+		}
+		ast.Inspect(n, func(x ast.Node) bool {
+			if ce, ok := x.(*ast.CallExpr); ok && c07Sel(ce.Fun) == "q.addChunk" {
+				found = true
+			}
+			return true
+		})
+		return found
+	}
+	isCount := func(st ast.Stmt) bool {
+		as, ok := st.(*ast.AssignStmt)
+		if !ok || len(as.Lhs) != 1 || len(as.Rhs) != 1 || c07Sel(as.Lhs[0]) != "n" {
+			return false
+		}
+		if as.Tok == token.ADD_ASSIGN && c07Sel(as.Rhs[0]) == "len(data)" {
+			return true
+		}
+		return as.Tok == token.ASSIGN && (c07Sel(as.Rhs[0]) == "n+len(data)" || c07Sel(as.Rhs[0]) == "len(data)+n")
+	}
+	mentionsN := func(n ast.Node) bool {
+		found := false
+		ast.Inspect(n, func(x ast.Node) bool {
+			if id, ok := x.(*ast.Ident); ok && id.Name == "n" {
+				found = true
+			}
+			return true
+		})
+		return found
+	}
+	add, count, ret := -1, -1, -1
+	for i, st := range loop.Body.List {
+		switch {
+		case isCount(st):
+			if count >= 0 {
+				return -1
+			}
+			count = i
+		default:
+			if is, ok := st.(*ast.IfStmt); ok && c07Sel(is.Cond) == "err!=nil" && is.Else == nil && len(is.Body.List) == 1 {
+				if _, isRet := is.Body.List[0].(*ast.ReturnStmt); isRet && ret < 0 {
+					ret = i
+					if is.Init != nil && callsAdd(is.Init) && add < 0 {
+						add = i
+					}
+					continue
+				}
+			}
+			if mentionsN(st) {
+				return -1 // n is touched somewhere else in the loop
+			}
+			if callsAdd(st) {
+				if add >= 0 {
+					return -1
+				}
+				if _, plain := st.(*ast.AssignStmt); !plain {
+					return -1
+				}
+				add = i
+			}
+		}
+	}
+	// a bare `return` in the error branch returns the named results (n, err) as they stand
+	if fd.Type.Results == nil || len(fd.Type.Results.List) != 2 || len(fd.Type.Results.List[0].Names) != 1 || fd.Type.Results.List[0].Names[0].Name != "n" {
+		return -1
+	}
+	if is, ok := loop.Body.List[max(ret, 0)].(*ast.IfStmt); ret >= 0 && ok {
+		if r := is.Body.List[0].(*ast.ReturnStmt); len(r.Results) != 0 && !(len(r.Results) == 2 && c07Sel(r.Results[0]) == "n" && c07Sel(r.Results[1]) == "err") {
+			return -1
+		}
+	}
+	switch {
+	case add < 0 || count < 0 || ret < 0 || add > ret:
+		return -1
+	case count < ret:
+		return 0
+	default:
+		return 1
+	}
+}
+
 func init() {
 	extractors = append(extractors, func(o *out) {
 		b := o.w("C07.lean")
@@ -153,6 +253,18 @@ func init() {
 				}
 				fmt.Fprintf(b, "/-- InQueue.Append: `for i := q.NextSeqNo + Lo; i != q.NextSeqNo + Hi; i++` -/\ndef c07WindowLo : Nat := %d\ndef c07WindowHi : Nat := %d\n", lo, hi)
 			}
+		}
+
+		// OutQueue.Write: where `n += len(data)` sits relative to the error return of the fragment loop
+		if fd := findFunc(qf, "OutQueue", "Write"); fd == nil {
+			fail("C07: OutQueue.Write not found")
+		} else {
+			code := c07WriteCount(fd)
+			if code < 0 {
+				fail("C07: OutQueue.Write: the fragment loop (`err = q.addChunk(data)`, `n += len(data)`, `if err != nil { return }`) is not in a recognised shape")
+				code = 99 // no accounting the model knows
+			}
+			fmt.Fprintf(b, "/-- OutQueue.Write, fragment loop: 0 = `n += len(data)` runs before the `if err != nil { return }` that follows\n    `addChunk` (a fragment is counted as soon as it is enqueued), 1 = it runs only after that return (a fragment whose\n    callback failed is enqueued but not counted) -/\ndef c07WriteCount : Nat := %d\n", code)
 		}
 
 		// piggy-backed ack: in.NextSeqNo - k on both ends
